@@ -1,5 +1,6 @@
 import YaegiVerif.Model.Unwind
-/- What interp/run.go and interp/program.go say today, as read by hand. The extractor re-emits the same
+/- What interp/run.go and interp/program.go say today, as read by hand (since the repair of F06-1 the three
+   defer sites store `copyDeferArg(…)` of each argument: argsByRef* = false). The extractor re-emits the same
    record into Generated/C06.lean on every run; `Props.C06.unwindfacts_tie` compares them. -/
 namespace YaegiVerif.Expected.C06
 open YaegiVerif.Unwind
@@ -8,7 +9,9 @@ def facts : UnwindFacts :=
   { prependCall := true,
     prependCallBin := true,
     prependBuiltin := true,
-    argsByRef := true,
+    argsByRefCall := false,
+    argsByRefBin := false,
+    argsByRefBuiltin := false,
     exitSteps := [.lock, .assignRecovered, .runDeferred, .ifRecovered, .unlock],
     ifSteps := [.log, .unlock, .repanic],
     recoverReadsAnc := true,
@@ -21,13 +24,14 @@ def facts : UnwindFacts :=
 def sourceHashes : List (String × String) :=
   [("_recover", "8cc0949f8735f125"),
    ("_panic", "5ddeb711c6245a56"),
-   ("genBuiltinDeferWrapper", "08df472f98f0064a"),
+   ("genBuiltinDeferWrapper", "a752ad4945ff5fce"),
    ("genFunctionWrapper", "2865f1c325015a31"),
+   ("copyDeferArg", "d8586ba1ea695e54"),
    ("Interpreter.Execute", "eaf1129b747c09aa"),
    ("newFrame", "da1db819d5067f56"),
    ("frame.clone", "ccd71f62c6588b0a"),
    ("runCfg: deferred function", "f0c391f659f9029e"),
-   ("call: defer branch", "769a26a78f01563e"),
-   ("callBin: defer clause", "c8769d4b835b1b87")]
+   ("call: defer branch", "6c7fc287e47bcb7e"),
+   ("callBin: defer clause", "7dd895ce205f05db")]
 
 end YaegiVerif.Expected.C06
